@@ -476,7 +476,7 @@ func c13Rounds(r *fw.Rec, sc, id, input string, mk func() *ir.Module, rounds int
 		go func() { wg.Wait(); close(done) }()
 		select {
 		case <-done:
-		case <-time.After(45 * time.Second):
+		case <-time.After(20 * time.Second):
 			buf := make([]byte, 1<<20)
 			buf = buf[:runtime.Stack(buf, true)]
 			blocked, other := 0, 0
@@ -502,10 +502,10 @@ func c13Rounds(r *fw.Rec, sc, id, input string, mk func() *ir.Module, rounds int
 			runtime.GOMAXPROCS(old)
 			if blocked > 0 && other == 0 {
 				r.Violate(fw.Violation{Key: "concurrent-print-never-returns/" + sc, Input: input,
-					What:     fmt.Sprintf("%d goroutines printing one module (%s) are all waiting for a lock 45 s after they started and no printer is runnable: the calls never return", blocked, sc),
+					What:     fmt.Sprintf("%d goroutines printing one module (%s) are all waiting for a lock 20 s after they started and no printer is runnable: the calls never return", blocked, sc),
 					Observed: strings.Join(witness, "\n\n")})
 			} else {
-				r.Inconclusive("printers still running after 45 s and not all of them blocked on locks")
+				r.Inconclusive("printers still running after 20 s and not all of them blocked on locks")
 			}
 			return
 		}
